@@ -10,6 +10,7 @@ execute.  The Go runtime's helper arithmetic is tied by the translator + theorem
 """
 from __future__ import annotations
 
+import os
 import random
 import re
 from typing import Any, Dict, List, Optional, Tuple
@@ -295,3 +296,137 @@ def check(run: common.Run, drv: common.Driver, rng: random.Random, tier: str) ->
                     run.violation(dict(rep, kind="impl-vs-spec", observed_impl=problems[:4],
                                        expected_by_spec="Go output describes the same message as the schema and the Python output"))
             R.unload(mod)
+
+
+# ===================================================================== Go runtime helpers, evaluated (no Go toolchain)
+class _GoHelperEval:
+    """evaluates the pure helper functions of lib/go/bitproto.go (`func f(params) T { (if c { return e })* return e }`)
+    with Go's operator precedence (`* / % << >> &` bind tighter than `+ - |`, comparisons lowest) and `byte`-typed
+    shifts wrapping at 8 bits"""
+
+    PREC = {"*": 5, "/": 5, "%": 5, "<<": 5, ">>": 5, "&": 5, "+": 4, "-": 4, "|": 4, "==": 3, "!=": 3, "<": 3, "<=": 3, ">": 3, ">=": 3}
+
+    def __init__(self, src: str) -> None:
+        self.funcs: Dict[str, Tuple[List[Tuple[str, str]], str, List[Tuple[Optional[str], str]]]] = {}
+        for m in re.finditer(r"^func (\w+)\(([^)]*)\) (\w+) \{\n(.*?)^\}", src, re.S | re.M):
+            name, params_s, ret, body = m.groups()
+            params: List[Tuple[str, str]] = []
+            pending: List[str] = []
+            for part in [p.strip() for p in params_s.split(",") if p.strip()]:
+                bits = part.split()
+                if len(bits) == 2:
+                    params += [(q, bits[1]) for q in pending + [bits[0]]]
+                    pending = []
+                else:
+                    pending.append(bits[0])
+            stmts = [l.strip() for l in body.split("\n") if l.strip() and not l.strip().startswith("//")]
+            clauses: List[Tuple[Optional[str], str]] = []
+            i, ok = 0, True
+            while i < len(stmts):
+                mi = re.match(r"^if (.*) \{$", stmts[i])
+                if mi and i + 2 < len(stmts) and stmts[i + 1].startswith("return ") and stmts[i + 2] == "}":
+                    clauses.append((mi.group(1), stmts[i + 1][7:]))
+                    i += 3
+                elif stmts[i].startswith("return "):
+                    clauses.append((None, stmts[i][7:]))
+                    i += 1
+                else:
+                    ok = False
+                    break
+            if ok and clauses:
+                self.funcs[name] = (params, ret, clauses)
+
+    def call(self, name: str, args: List[Any]) -> Any:
+        params, ret, clauses = self.funcs[name]
+        env = {p: (a, t) for (p, t), a in zip(params, args)}
+        for cond, e in clauses:
+            if cond is None or self.ev(cond, env)[0]:
+                v, t = self.ev(e, env)
+                if ret == "byte" and not isinstance(v, bool):
+                    v &= 0xFF
+                return v
+        raise ValueError("no return")
+
+    def ev(self, text: str, env: Dict[str, Tuple[Any, str]]) -> Tuple[Any, str]:
+        from .translate_go import tokenize
+
+        toks = tokenize(text)
+        v, t, i = self._expr(toks, 0, 1, env)
+        if i != len(toks):
+            raise ValueError(f"trailing tokens in {text!r}")
+        return v, t
+
+    def _atom(self, toks, i, env):
+        t = toks[i]
+        if t == "(":
+            v, ty, i = self._expr(toks, i + 1, 1, env)
+            return v, ty, i + 1
+        if t.isdigit():
+            return int(t), "untyped", i + 1
+        if t in ("true", "false"):
+            return t == "true", "bool", i + 1
+        if i + 1 < len(toks) and toks[i + 1] == "(":
+            args, i = [], i + 2
+            while toks[i] != ")":
+                v, ty, i = self._expr(toks, i, 1, env)
+                args.append(v)
+                if toks[i] == ",":
+                    i += 1
+            return self.call(t, args), self.funcs[t][1], i + 1
+        return env[t][0], env[t][1], i + 1
+
+    def _expr(self, toks, i, p, env):
+        l, lt, i = self._atom(toks, i, env)
+        while i < len(toks) and toks[i] in self.PREC and self.PREC[toks[i]] >= p:
+            op = toks[i]
+            r, rt, i = self._expr(toks, i + 1, self.PREC[op] + 1, env)
+            if op in ("==", "!=", "<", "<=", ">", ">="):
+                l, lt = {"==": l == r, "!=": l != r, "<": l < r, "<=": l <= r, ">": l > r, ">=": l >= r}[op], "bool"
+                continue
+            if op in ("<<", ">>") and not 0 <= r < 512:
+                raise ValueError("shift count")
+            res = (l * r if op == "*" else int(l / r) if op == "/" else (abs(l) % abs(r)) * (1 if l >= 0 else -1) if op == "%" else l << r if op == "<<"
+                   else l >> r if op == ">>" else l & r if op == "&" else l + r if op == "+" else l - r if op == "-" else l | r)
+            ty = lt if op in ("<<", ">>") or lt != "untyped" else rt
+            if ty == "byte":
+                res &= 0xFF
+            l, lt = res, ty
+        return l, lt, i
+
+
+def check_go_helpers(run: common.Run) -> None:
+    """the four arithmetic helpers of the Go runtime against the Python runtime's, on the whole argument grid the runtime
+    can produce (bit offsets 0..7, widths 1..64)"""
+    from bitprotolib import bp
+
+    src = open(os.path.join(common.REPO, "lib/go/bitproto.go")).read()
+    ev = _GoHelperEval(src)
+    missing = [f for f in ("min", "getNbitsToCopy", "getMask", "smartShift", "Bool2byte", "Byte2bool") if f not in ev.funcs]
+    if missing:
+        run.notes.setdefault("model_disagreements", []).append({"what": "Go helper outside the evaluable subset", "functions": missing})
+        return
+    cases: List[Tuple[str, List[Any], Any]] = []
+    for k in range(8):
+        for c in range(0, 9 - k):
+            cases.append(("getMask", [k, c], bp.get_mask(k, c)))
+    for n in (1, 2, 3, 7, 8, 9, 15, 16, 17, 31, 32, 33, 63, 64):
+        for i in range(0, 24):
+            for j in range(0, n):
+                cases.append(("getNbitsToCopy", [i, j, n], bp.get_nbits_to_copy(i, j, n)))
+    for n in (0, 1, 0x55, 0x80, 0xAA, 0xFF, 0x7F):
+        for k in range(-7, 8):
+            cases.append(("smartShift", [n, k], bp.smart_shift(n, k) & 0xFF))
+    for a in range(-2, 10):
+        for b in range(-2, 10):
+            cases.append(("min", [a, b], min(a, b)))
+    cases += [("Bool2byte", [True], 1), ("Bool2byte", [False], 0), ("Byte2bool", [0], False), ("Byte2bool", [1], True), ("Byte2bool", [255], True)]
+    for (f, args, want) in cases:
+        run.evaluated()
+        run.count("go_helper:" + f)
+        try:
+            got = ev.call(f, args)
+        except Exception as e:
+            got = f"{type(e).__name__}: {e}"
+        if got != want:
+            run.violation({"kind": "impl-vs-spec", "input": {"go_helper": f, "arguments": args, "source": "lib/go/bitproto.go (evaluated with Go precedence and byte wrap-around)"},
+                           "observed_impl": got, "expected_by_spec": {"python_runtime": want}})
